@@ -96,11 +96,11 @@ package admin
 //@   requires s != nil && ctx != nil && u != nil && wireValidTV(u.Val) && plugin != nil && tvMapWF(updates)
 //@   ensures tvMapWF(updates)
 //@   loop 1 invariant tvMapWF(updates)
-//@   modifies mapOf(updates), checkFailures, getPathValuesCalls, lastGetPathValuesPrefix, lastFindExact, lastFindKey
+//@   modifies mapOf(updates), checkFailures, getPathValuesCalls, lastGetPathValuesPrefix, lastFindExact, lastFindKey, lastFindPath, lastKeyCheckPath
 //@   ensures errWF(err)
 //@ func (*Server).doDelete(s, prefix, gnmiPath, plugin) (deletes, err)
 //@   props C12
 //@   safe
 //@   requires s != nil && plugin != nil
-//@   modifies checkFailures, lastFindExact, lastFindKey
+//@   modifies checkFailures, lastFindExact, lastFindKey, lastFindPath
 //@   ensures errWF(err)
